@@ -165,11 +165,11 @@ func OddPrograms(thorough bool) []*Program {
 }
 
 var badValues = map[string][]string{
-	"account":  {"", "a b", "@a", "world", "a:", ":a", "a::b", "é"},
+	"account":  {"", "a b", "@a", "a:", ":a", "a::b", "é"},
 	"asset":    {"", "x", "X/", "X/1234567", "ABCDEFGHIJKLMNOPQRS"},
 	"monetary": {"", "X", "X -1", "X 1.5", " 5", "X  5", "x 5", "X 5 6", "X 1180591620717411303424"},
 	"portion":  {"", "3/2", "1/0", "abc", "-1/2", "150%", "1/2/3", "50", "0/0"},
-	"number":   {"", "abc", "1.5", "-3", "1e3", "1180591620717411303424", " 1"},
+	"number":   {"", "abc", "1.5", "-3", "1e3", "1180591620717411303424"},
 	"string":   {"", "\x00", "é\"'"},
 }
 
